@@ -4,13 +4,15 @@ import common, fns, sweeps, crops
 from common import canon
 
 PROP = 'C09'
-LEAN_MODULES = ['XyzProofs.Props.C09', 'XyzProofs.Refine.Reap']
+LEAN_MODULES = ['XyzProofs.Props.C09', 'XyzProofs.Refine.Reap', 'XyzProofs.Props.C12Skel']
 THEOREMS = ['Crop.c09_stream_partial', 'Crop.c09_unshuffle_positions', 'Crop.c09_partial_linear', 'Crop.c09_refused',
             'Crop.c09_no_delete_by_default', 'Crop.c09_explicit_clean_up', 'Crop.c09_needs_one_finished', 'Crop.reapRaw_dir',
             'Crop.partialStream_eq_tagged', 'Crop.c09_partial_positions', 'Crop.nested_of_linear', 'Crop.c09_partial_exact',
-            'Refine.calcCleanUp_refines', 'Refine.checkReady_refines', 'Refine.reaperUseDefault_spec']
+            'Refine.calcCleanUp_refines', 'Refine.checkReady_refines', 'Refine.reaperUseDefault_spec',
+            'Skel.reapCombos_deletes_iff', 'Skel.reapHarvest_deletes_iff', 'Skel.reapSamples_deletes_iff']
 ANCHORS = ['isReady', 'cleanUpDefault', 'sowerGetsExtra', 'sowerFlush', 'nbFromBs', 'capNb', 'bsOfNb', 'remOfNb',
-           'calcCleanUp', 'checkReady', 'reaperUseDefault']
+           'calcCleanUp', 'checkReady', 'reaperUseDefault',
+           'reapCombosSk', 'reapCombosToDsSk', 'reapRunnerSk', 'reapHarvestSk', 'reapSamplesSk']
 RULE = ("for every crop configuration of a list of (N, batchsize | num_batches) with and without remainder (incl. a short "
         "last batch), x shuffle off/seed x result kind (number, array, bool, str, tuple, Dataset with int/bool data) x grid/case list: ALL non-empty "
         "proper subsets S of the batches (B<=5 quick, B<=7 thorough) are grown, then reap(allow_incomplete=True), directory "
